@@ -7,27 +7,10 @@ From PcoreV Require Import Model.Base Model.Ty Model.Lattice Proofs.LatticeUnfol
 Import ListNotations.
 Open Scope Z_scope.
 
-(* Every Array / Hash / Tuple size has a non-negative maximum.  NOT guaranteed by the Go constructors
-   (Array[String, -1, -1] parses); transitivity is false without it: open finding
-   trans-negative-collection-size.  Only the RIGHTMOST type of a chain needs it. *)
-Fixpoint sz_nonneg (t : ty) : bool :=
-  match t with
-  | TArray e _ hi => (0 <=? hi) && sz_nonneg e
-  | THash k v _ hi => (0 <=? hi) && sz_nonneg k && sz_nonneg v
-  | TTuple ts _ _ hi => (0 <=? hi) && forallb sz_nonneg ts
-  | TStruct ms => forallb (fun m => sz_nonneg (fst (snd m)) && sz_nonneg (snd (snd m))) ms
-  | TVariant ts => forallb sz_nonneg ts
-  | TOptional t | TNotUndef t | TType t | TSensitive t => sz_nonneg t
-  | _ => true
-  end.
-
-(* side conditions of a left / middle operand, and of a right operand *)
+(* side conditions of every operand of a chain *)
 Definition gd (t : ty) : Prop := wf_ty t = true /\ no_unit t = true.
-Definition gdr (t : ty) : Prop := gd t /\ sz_nonneg t = true.
 
 Lemma gd_any : gd TAny.  Proof. split; reflexivity. Qed.
-Lemma gdr_any : gdr TAny.  Proof. split; [apply gd_any|reflexivity]. Qed.
-Lemma gdr_gd t : gdr t -> gd t.  Proof. intros [H _]. exact H. Qed.
 
 (* ---- the measure ---- *)
 Lemma tsize_pos t : (1 <= tsize t)%nat.
@@ -59,45 +42,19 @@ Proof. destruct k; cbn; lia. Qed.
 (* ---- side conditions, per constructor ---- *)
 Lemma gd_variant ts t : gd (TVariant ts) -> In t ts -> gd t.
 Proof. intros [Hw Hn] Hin. cbn in Hw, Hn. rewrite forallb_forall in Hw, Hn. split; auto. Qed.
-Lemma gdr_variant ts t : gdr (TVariant ts) -> In t ts -> gdr t.
-Proof.
-  intros [Hg Hs] Hin. split; [eapply gd_variant; eauto|]. cbn in Hs. rewrite forallb_forall in Hs. auto.
-Qed.
 Lemma gd_optional t : gd (TOptional t) -> gd t.  Proof. intros H. exact H. Qed.
-Lemma gdr_optional t : gdr (TOptional t) -> gdr t.  Proof. intros H. exact H. Qed.
 Lemma gd_notundef t : gd (TNotUndef t) -> gd t.  Proof. intros H. exact H. Qed.
-Lemma gdr_notundef t : gdr (TNotUndef t) -> gdr t.  Proof. intros H. exact H. Qed.
 Lemma gd_type t : gd (TType t) -> gd t.  Proof. intros H. exact H. Qed.
-Lemma gdr_type t : gdr (TType t) -> gdr t.  Proof. intros H. exact H. Qed.
 Lemma gd_sensitive t : gd (TSensitive t) -> gd t.  Proof. intros H. exact H. Qed.
-Lemma gdr_sensitive t : gdr (TSensitive t) -> gdr t.  Proof. intros H. exact H. Qed.
 Lemma gd_array e lo hi : gd (TArray e lo hi) -> gd e.  Proof. intros H. exact H. Qed.
-Lemma gdr_array e lo hi : gdr (TArray e lo hi) -> gdr e /\ 0 <= hi.
-Proof.
-  intros [Hg Hs]. cbn in Hs. apply andb_true_iff in Hs. destruct Hs as [Hh Hs]. apply Z.leb_le in Hh.
-  split; [split; [exact Hg|exact Hs]|exact Hh].
-Qed.
 Lemma gd_hash k v lo hi : gd (THash k v lo hi) -> gd k /\ gd v.
 Proof.
   intros [Hw Hn]. cbn in Hw, Hn. apply andb_true_iff in Hw, Hn. destruct Hw, Hn. repeat split; assumption.
-Qed.
-Lemma gdr_hash k v lo hi : gdr (THash k v lo hi) -> gdr k /\ gdr v /\ 0 <= hi.
-Proof.
-  intros [Hg Hs]. destruct (gd_hash _ _ _ _ Hg) as [Hk Hv]. cbn in Hs.
-  apply andb_true_iff in Hs. destruct Hs as [Hs Hsv]. apply andb_true_iff in Hs. destruct Hs as [Hh Hsk].
-  apply Z.leb_le in Hh. split; [split; assumption|]. split; [split; assumption|assumption].
 Qed.
 Lemma gd_tuple ts g lo hi t : gd (TTuple ts g lo hi) -> In t ts -> gd t.
 Proof.
   intros [Hw Hn] Hin. cbn in Hw, Hn. apply andb_true_iff in Hw. destruct Hw as [_ Hw].
   rewrite forallb_forall in Hw, Hn. split; auto.
-Qed.
-Lemma gdr_tuple_hi ts g lo hi : gdr (TTuple ts g lo hi) -> 0 <= hi.
-Proof. intros [_ Hs]. cbn in Hs. apply andb_true_iff in Hs. destruct Hs as [Hh _]. apply Z.leb_le in Hh. exact Hh. Qed.
-Lemma gdr_tuple ts g lo hi t : gdr (TTuple ts g lo hi) -> In t ts -> gdr t.
-Proof.
-  intros [Hg Hs] Hin. split; [eapply gd_tuple; eauto|]. cbn in Hs. apply andb_true_iff in Hs. destruct Hs as [_ Hs].
-  rewrite forallb_forall in Hs. auto.
 Qed.
 Lemma gd_struct_k ms m : gd (TStruct ms) -> In m ms -> gd (fst (snd m)).
 Proof.
@@ -109,18 +66,7 @@ Proof.
   intros [Hw Hn] Hin. destruct (wf_struct_member _ _ Hw Hin) as [_ Hv].
   destruct (nounit_struct_member _ _ Hn Hin) as [_ Hnv]. split; assumption.
 Qed.
-Lemma gdr_struct_k ms m : gdr (TStruct ms) -> In m ms -> gdr (fst (snd m)).
-Proof.
-  intros [Hg Hs] Hin. split; [eapply gd_struct_k; eauto|]. cbn in Hs. rewrite forallb_forall in Hs.
-  specialize (Hs _ Hin). apply andb_true_iff in Hs. tauto.
-Qed.
-Lemma gdr_struct_v ms m : gdr (TStruct ms) -> In m ms -> gdr (snd (snd m)).
-Proof.
-  intros [Hg Hs] Hin. split; [eapply gd_struct_v; eauto|]. cbn in Hs. rewrite forallb_forall in Hs.
-  specialize (Hs _ Hin). apply andb_true_iff in Hs. tauto.
-Qed.
 Lemma gd_stringval s : gd (TStringVal s).  Proof. split; reflexivity. Qed.
-Lemma gdr_stringval s : gdr (TStringVal s).  Proof. split; [apply gd_stringval|reflexivity]. Qed.
 
 (* right operands handed to the receiver that no receiver other than a wrapper accepts *)
 Definition rcv (a : ty) : bool :=
